@@ -615,6 +615,8 @@ class StmtMixin:
 
     def widen_hint(self, name: str, th: Optional[TH], body, st: State) -> Optional[TH]:
         """The declared annotation of a local (if any) wins over the hint of its entry value."""
+        if st.contract is not None and name in st.contract.types:
+            return parse_hint(st.contract.types[name])
         fn = st.func.node if st.func is not None else None
         if fn is not None:
             for n in ast.walk(fn):
